@@ -16,7 +16,7 @@ pub struct FnDef {
     pub text: &'static str,
 }
 
-pub const LIB: [FnDef; 16] = [
+pub const LIB: [FnDef; 25] = [
     FnDef { name: "f0", text: "void f0() { c = c + 1; }" },
     FnDef { name: "f1", text: "char f1() { return a + 1; }" },
     FnDef { name: "f2", text: "char f2(char v) { return v + b; }" },
@@ -33,6 +33,15 @@ pub const LIB: [FnDef; 16] = [
     FnDef { name: "g4", text: "char g4() { switch (a) { case 1: return 10; case 2: c = 2; break; default: c = 3; } return c; }" },
     FnDef { name: "g5", text: "char g5() { if (X) return 2; return 1; }" },
     FnDef { name: "g6", text: "void g6() { c = 0; }" },
+    FnDef { name: "h1", text: "void h1() { if (a <= 5) X = 1; else X = 2; }" },
+    FnDef { name: "h2", text: "char h2() { if (a > 3) return 1; return 0; }" },
+    FnDef { name: "h3", text: "void h3() { a = 3; }" },
+    FnDef { name: "h4", text: "void h4(char v) { if (v >= b) c = 1; else c = 2; }" },
+    FnDef { name: "h5", text: "char h5() { if (Y) return 1; return 0; }" },
+    FnDef { name: "h6", text: "void h6() { a = h5(); b = 5; }" },
+    FnDef { name: "h7", text: "void h7() { if (h5()) b++; }" },
+    FnDef { name: "h8", text: "void h8() { asm(\"LDA #32\\n\\tSTA cctmp\", 4); }" },
+    FnDef { name: "h9", text: "void h9() { X++; f0(); }" },
 ];
 
 /// functions a function calls (library order = definition order: callees first)
@@ -41,11 +50,14 @@ fn deps(name: &str) -> &'static [&'static str] {
         "f7" => &["f2"],
         "g1" => &["f0"],
         "g2" => &["f9"],
+        "h6" => &["h5"],
+        "h7" => &["h5"],
+        "h9" => &["f0"],
         _ => &[],
     }
 }
 
-pub const BODIES: [(&str, &[&str]); 60] = [
+pub const BODIES: [(&str, &[&str]); 92] = [
     ("f0();", &["f0"]),
     ("f0(); f0();", &["f0"]),
     ("f0(); f0(); f0();", &["f0"]),
@@ -106,6 +118,38 @@ pub const BODIES: [(&str, &[&str]); 60] = [
     ("r = g5(); if (r == 1) c = 5;", &["g5"]),
     ("a = 1; g6(); a = 1; r = a;", &["g6"]),
     ("if (g5() == 2) r = f1(); else r = f2(a);", &["f1", "f2", "g5"]),
+    ("a = 7; h1();", &["h1"]),
+    ("a = 5; h1();", &["h1"]),
+    ("a = 3; h1(); c = X;", &["h1"]),
+    ("a = 3; r = h2();", &["h2"]),
+    ("a = 4; r = h2(); c = 1;", &["h2"]),
+    ("X = b; h3(); if (X) b = 1;", &["h3"]),
+    ("c--; h3(); if (c) r = 1; else r = 2;", &["h3"]),
+    ("Y = b; h3(); if (Y == 0) r = 1;", &["h3"]),
+    ("c = a - b; h3(); if (c) r = 1;", &["h3"]),
+    ("b = 2; h4(b);", &["h4"]),
+    ("a = 2; b = 2; h4(a);", &["h4"]),
+    ("b = 9; h4(3);", &["h4"]),
+    ("a = h5(); b = 0;", &["h5"]),
+    ("a = h5(); b = 1;", &["h5"]),
+    ("X = h5(); a = 0; b = 1;", &["h5"]),
+    ("r = h5(); r = 0;", &["h5"]),
+    ("h6(); c = 1;", &["h5", "h6"]),
+    ("h6(); h6();", &["h5", "h6"]),
+    ("h6(); r = a + b;", &["h5", "h6"]),
+    ("h7(); h7();", &["h5", "h7"]),
+    ("h7(); c = b;", &["h5", "h7"]),
+    ("h8(); h8();", &["h8"]),
+    ("h8(); r = 1;", &["h8"]),
+    ("if (a) { h8(); } r = 2;", &["h8"]),
+    ("h9();", &["f0", "h9"]),
+    ("h9(); h9();", &["f0", "h9"]),
+    ("a = 7; if (a <= 5) r = 1; h1();", &["h1"]),
+    ("switch (a) { case 1: r = f1(); break; default: r = f2(b); } c = r;", &["f1", "f2"]),
+    ("for (X = 0; X < 2; X++) { if (f9(X)) continue; r++; }", &["f9"]),
+    ("do { r = h2(); a++; } while (a < 6);", &["h2"]),
+    ("r = h2() + h5();", &["h2", "h5"]),
+    ("if (h2() && h5()) r = 1; else r = 2;", &["h2", "h5"]),
 ];
 
 /// extra program shapes for the call-graph property: interrupts, unused functions, prototypes
@@ -162,6 +206,25 @@ pub fn source_for(fc: &FnCase, mask: u32, proto_first: bool) -> String {
 
 fn small() -> Vec<(&'static str, &'static [i32])> {
     vec![("a", &[0, 1, 2, 3, 5, 0x80, 255]), ("b", &[0, 1, 2, 0x7f, 255]), ("c", &[0, 1, 4, 255]), ("X", &[0, 1, 2]), ("Y", &[0, 1, 3]), ("r", &[0]), ("s", &[0, 0x1ff])]
+}
+
+/// the call-site bodies as executable programs for the shared corpus: no function inlined, all inlined,
+/// and each single function inlined
+pub fn corpus_cases() -> Vec<SemCase> {
+    let mut v = Vec::new();
+    for fc in fn_cases() {
+        let n = fc.names.len() as u32;
+        let mut masks: Vec<u32> = vec![0, (1u32 << n) - 1];
+        for k in 0..n {
+            if n > 1 {
+                masks.push(1 << k);
+            }
+        }
+        for m in masks {
+            v.push(sem_case(&source_for(&fc, m, false), if m == 0 { "F3.lib" } else { "F3.lib.inline" }));
+        }
+    }
+    v
 }
 
 fn sem_case(src: &str, fam: &str) -> SemCase {
